@@ -259,7 +259,8 @@ func (r *Runner) cfg(tok string) (cfgArgs, error) {
 	case 0:
 		c.m, c.efc, c.lang = 16, 200, ""
 	case 1:
-		c.m, c.efc, c.lang = 4, 50, "english"
+		// efConstruction 2: the block-reservation path of AddBatch is taken as soon as two ids were allocated
+		c.m, c.efc, c.lang = 4, 2, "english"
 	default:
 		c.m, c.efc, c.lang = 8, 100, "italian"
 	}
